@@ -2,8 +2,8 @@
    Statements only; every proof is [exact <lemma>].  Open statements are listed at the end. *)
 From PV.Model Require Import Machine Mapping Views Pattern Exec ScanView Scanner.
 From PV.Spec Require Import MappingSpec ScanSpec.
-From PV.Proofs Require ViewsProofs ScannerProofs.
-Import ScannerProofs.
+From PV.Proofs Require ViewsProofs ScannerProofs ExecSaveProofs ScannerIterProofs ScannerOverlapProofs.
+Import ScannerProofs ExecSaveProofs ScannerIterProofs ScannerOverlapProofs.
 
 (* Theorems 1 and 6 (soundness, no fault, termination measure).  For EVERY view (file or mapped, any section table),
    pattern, save array and range - also reversed, empty, beyond the image, starting in a virtual-only tail - one call of
@@ -133,13 +133,207 @@ Example C10_nonvacuous :
   finds v wit_pat 0 8192 [0] = Ok (true, [4112]) /\ finds v wit_pat 0 12288 [0] = Ok (false, [4112]).
 Proof. exact ScannerProofs.nonvacuous_example. Qed.
 
-(* OPEN: C10_exec_verdict_ignores_saves : forall v pat, reads_no_saves pat -> forall c s1 s2,
-     fst-verdict (view_exec v pat c s1) = fst-verdict (view_exec v pat c s2)
-   - for patterns without Check/Pir atoms the verdict of the interpreter does not depend on the incoming save array,
-   so Eall p is plain "exec succeeds at p" and the probe of finds on the empty array sees the same matches
-   (DESIGN.md section 7 C10 theorem 5, second half).  Not proved (a relational induction over the 26 cases of exec);
-   covered by the correspondence check only: finds is compared with the number of reported positions on every case. *)
-(* OPEN: C10_iteration_enumerates : the list produced by iterating next to exhaustion equals the ascending list of
-   obliged matching positions plus possibly tail-window positions - the corollary of C10_next_total_sound and
-   C10_next_complete_* by induction on the number of calls; and must_report v (window pat) .. c = true -> obl .. c
-   (the boolean obligation of the oracle implies the Prop used in C10_next_complete_file). *)
+(* ---------------------------------------------------------------------------------------------------------------
+   Second round.  [reads_no_saves pat]: the pattern has no Check and no Pir atom (forallb nosave_atom pat = true).
+   [writes w s]: the array s after the sequence w of writes `if slot < len { save[slot] = value }`, oldest first. *)
+
+(* Theorem 5, the lemma it needed.  For a pattern without Check/Pir the save array is write-only: at every cursor the
+   verdict is fixed by (view, pattern, cursor) and the outgoing array is the incoming one with a fixed write log
+   applied - for EVERY incoming array, of any length (the empty array of the uniqueness probe included). *)
+Theorem C10_exec_verdict_ignores_saves : forall v pat, reads_no_saves pat -> ViewsProofs.view_ok v -> v_len v < W32 ->
+  forall c, exists ok w, forall s, view_exec v pat c s = Ok (ok, writes w s).
+Proof. exact ScannerIterProofs.view_exec_log. Qed.
+Print Assumptions C10_exec_verdict_ignores_saves.
+
+(* the same without any hypothesis on the view: the whole outcome, faults included, ignores the incoming array *)
+Theorem C10_exec_outcome_ignores_saves : forall v pat, reads_no_saves pat ->
+  forall c, exists o : res (bool * list (N * N)), forall s, view_exec v pat c s =
+    match o with Ok (ok, w) => Ok (ok, writes w s) | Err e => Err e | Fault f => Fault f end.
+Proof. exact ScannerIterProofs.view_exec_outcome. Qed.
+Print Assumptions C10_exec_outcome_ignores_saves.
+
+(* what a write log leaves in a slot the array has: the last value written to it, else what was there *)
+Theorem C10_writes_slot : forall w s n, (n < length s)%nat ->
+  nth_error (writes w s) n = match last_write w n with Some x => Some x | None => nth_error s n end.
+Proof. exact ExecSaveProofs.writes_nth. Qed.
+Print Assumptions C10_writes_slot.
+
+(* two incoming arrays: same verdict, lengths kept, and every slot both arrays have either holds the same written
+   value afterwards or was not written and keeps what each array held *)
+Theorem C10_exec_two_arrays : forall v pat, reads_no_saves pat -> ViewsProofs.view_ok v -> v_len v < W32 ->
+  forall c s1 s2 ok s1', view_exec v pat c s1 = Ok (ok, s1') ->
+  exists s2', view_exec v pat c s2 = Ok (ok, s2') /\ length s1' = length s1 /\ length s2' = length s2 /\
+    forall n, (n < length s1)%nat -> (n < length s2)%nat ->
+      (exists x, nth_error s1' n = Some x /\ nth_error s2' n = Some x) \/
+      (nth_error s1' n = nth_error s1 n /\ nth_error s2' n = nth_error s2 n).
+Proof. exact ScannerIterProofs.view_exec_two_arrays. Qed.
+Print Assumptions C10_exec_two_arrays.
+
+(* hence the [Eall] of the completeness theorems is plain success, on whatever array one tries *)
+Theorem C10_Eall_is_success : forall v pat, reads_no_saves pat -> ViewsProofs.view_ok v -> v_len v < W32 ->
+  forall p s, Eall (view_exec v pat) p <-> exists s', view_exec v pat p s = Ok (true, s').
+Proof. exact ScannerIterProofs.Eall_is_success. Qed.
+Print Assumptions C10_Eall_is_success.
+
+(* the parser of C11 (Model/Pattern.v) never emits Check or Pir: every pattern it accepts is write-only *)
+Theorem C10_parse_reads_no_saves : forall input p, parse input = Ok (inr p) -> reads_no_saves p.
+Proof. exact ExecSaveProofs.parse_reads_no_saves. Qed.
+Print Assumptions C10_parse_reads_no_saves.
+
+(* Matches::next as a whole: verdict, new range and counter are fixed by (view, pattern, state); the caller's array
+   receives a fixed write log *)
+Theorem C10_next_ignores_saves : forall v pat, reads_no_saves pat -> ViewsProofs.view_ok v -> v_len v < W32 ->
+  forall st, m_end st < W32 -> m_hits st <= m_start st ->
+  exists ok st' w, forall s, next v pat st s = Ok (ok, st', writes w s).
+Proof. exact ScannerIterProofs.next_log. Qed.
+Print Assumptions C10_next_ignores_saves.
+
+(* Theorem 4 packaged: `while matches.next(&mut save) { .. }`.
+   [iterate n v pat st save] makes at most n calls and stops after the first false; l lists the outcomes
+   (verdict, Matches value, save array) of the calls.  [run_sound v pat lo rend l cs] - unfolded here - says: every
+   call but the last returned true and the last returned false (the iteration ran to exhaustion); the reported
+   positions cs are strictly ascending; the i-th lies in [lo, rend), below the i-th call's new range.start, and exec
+   succeeds there with exactly the captures the i-th call returned. *)
+Theorem C10_run_sound_unfold : forall v pat lo rend l cs, run_sound v pat lo rend l cs <->
+  (map ok_of_call l = repeat true (length cs) ++ [false] /\
+   ascending cs = true /\
+   forall i c, nth_error cs i = Some c ->
+     lo <= c /\ c < rend /\
+     exists st_i sv_i s_in, nth_error l i = Some (true, st_i, sv_i) /\ c < m_start st_i /\
+                            view_exec v pat c s_in = Ok (true, sv_i)).
+Proof. exact ScannerIterProofs.run_sound_unfold. Qed.
+Print Assumptions C10_run_sound_unfold.
+
+(* EVERY view, pattern, save array and range: (range.end - range.start) + 1 calls suffice to exhaust the iteration
+   (no fault, no fuel exhaustion) and the run is sound *)
+Theorem C10_iteration_sound : forall v pat, ViewsProofs.view_ok v -> v_len v < W32 ->
+  forall n st save, m_end st < W32 -> m_hits st <= m_start st -> (N.to_nat (m_end st - m_start st) < n)%nat ->
+  exists l cs, iterate n v pat st save = Ok l /\ run_sound v pat (m_start st) (m_end st) l cs.
+Proof. exact ScannerIterProofs.iteration_sound. Qed.
+Print Assumptions C10_iteration_sound.
+
+(* mapped view, any pattern: moreover every obliged position at which exec succeeds whatever the array holds is
+   reported exactly once *)
+Theorem C10_iteration_complete_mapped : forall v pat, ViewsProofs.view_ok v -> v_len v < W32 ->
+  (forall i, v_get v i < 256) -> bytes_ok (setup pat) ->
+  forall n st save, v_file v = false -> m_end st < W32 -> m_hits st <= m_start st ->
+  (N.to_nat (m_end st - m_start st) < n)%nat ->
+  exists l cs, iterate n v pat st save = Ok l /\ run_sound v pat (m_start st) (m_end st) l cs /\
+    forall p, m_start st <= p -> p + win (setup pat) <= N.min (m_end st) (v_len v) -> Eall (view_exec v pat) p ->
+              count_occ N.eq_dec cs p = 1%nat.
+Proof. exact ScannerIterProofs.iteration_mapped. Qed.
+Print Assumptions C10_iteration_complete_mapped.
+
+(* file view, table sorted by VirtualAddress, extents below 2^32 *)
+Theorem C10_iteration_complete_file : forall v pat, ViewsProofs.view_ok v -> v_len v < W32 ->
+  (forall i, v_get v i < 256) -> bytes_ok (setup pat) ->
+  forall n st save, v_file v = true -> sorted_by_va (v_secs v) = true -> sections_sane (v_secs v) = true ->
+  m_end st < W32 -> m_hits st <= m_start st -> (N.to_nat (m_end st - m_start st) < n)%nat ->
+  exists l cs, iterate n v pat st save = Ok l /\ run_sound v pat (m_start st) (m_end st) l cs /\
+    forall p, m_start st <= p -> obl v pat (m_end st) (v_secs v) p -> Eall (view_exec v pat) p ->
+              count_occ N.eq_dec cs p = 1%nat.
+Proof. exact ScannerIterProofs.iteration_file. Qed.
+Print Assumptions C10_iteration_complete_file.
+
+(* the boolean obligation of the run-time oracle implies the Prop obligation of the theorems (window >= win) *)
+Theorem C10_must_report_obl : forall v pat rs re p, must_report v (window pat) rs re p = true ->
+  rs <= p /\
+  if v_file v then sections_sane (v_secs v) = true /\ obl v pat re (v_secs v) p
+  else p + win (setup pat) <= N.min re (v_len v).
+Proof. exact ScannerIterProofs.must_report_obl. Qed.
+Print Assumptions C10_must_report_obl.
+
+(* THE PROPERTY, in the vocabulary of the oracle (Spec/ScanSpec.v).  File or mapped view outside the known class
+   sections_not_sorted, pattern that does not read the save array (every parser output): iterating next to exhaustion
+   reports - strictly ascending, each a match inside the range - every position that must_report obliges and at
+   which Scanner::exec succeeds (on any array), exactly once. *)
+Theorem C10_iteration_enumerates : forall v pat, ViewsProofs.view_ok v -> v_len v < W32 ->
+  (forall i, v_get v i < 256) -> bytes_ok (setup pat) -> sections_not_sorted v = false -> reads_no_saves pat ->
+  forall n st save, m_end st < W32 -> m_hits st <= m_start st -> (N.to_nat (m_end st - m_start st) < n)%nat ->
+  exists l cs, iterate n v pat st save = Ok l /\ run_sound v pat (m_start st) (m_end st) l cs /\
+    forall p s s', must_report v (window pat) (m_start st) (m_end st) p = true -> view_exec v pat p s = Ok (true, s') ->
+                   count_occ N.eq_dec cs p = 1%nat.
+Proof. exact ScannerIterProofs.iteration_enumerates. Qed.
+Print Assumptions C10_iteration_enumerates.
+
+(* Theorem 5 complete.  finds returns true exactly when the iteration on the caller's array reports exactly one
+   position (cs has length 1; cs contains every obliged matching position once, so: exactly one report, and no other
+   obliged match).  The array it returns is the first call's; when a position c was reported it is the write log of
+   the execution at c applied to an array of the caller's length, hence agrees with a fresh execution at c on every
+   slot that execution writes (captures_ok of the Spec). *)
+Theorem C10_finds_exact : forall v pat, ViewsProofs.view_ok v -> v_len v < W32 ->
+  (forall i, v_get v i < 256) -> bytes_ok (setup pat) -> sections_not_sorted v = false -> reads_no_saves pat ->
+  forall rs re save, re < W32 ->
+  exists b save1 l cs, finds v pat rs re save = Ok (b, save1) /\
+    iterate (S (N.to_nat (re - rs))) v pat (matches rs re) save = Ok l /\
+    run_sound v pat rs re l cs /\
+    (forall p s s', must_report v (window pat) rs re p = true -> view_exec v pat p s = Ok (true, s') ->
+                    count_occ N.eq_dec cs p = 1%nat) /\
+    (b = true <-> length cs = 1%nat) /\
+    (exists ok1 st1, nth_error l 0 = Some (ok1, st1, save1)) /\ length save1 = length save /\
+    forall c, nth_error cs 0 = Some c ->
+      (exists w s_in, (forall s, view_exec v pat c s = Ok (true, writes w s)) /\ length s_in = length save /\
+                      save1 = writes w s_in) /\
+      forall fill fresh, view_exec v pat c (repeat fill (length save)) = Ok (true, fresh) ->
+                         captures_ok fill save1 fresh = true.
+Proof. exact ScannerIterProofs.finds_exact. Qed.
+Print Assumptions C10_finds_exact.
+
+(* the same on ANY view (unsorted tables, bytes not assumed): finds is "exactly one report" *)
+Theorem C10_finds_one_report : forall v pat, reads_no_saves pat -> ViewsProofs.view_ok v -> v_len v < W32 ->
+  forall rs re save, re < W32 ->
+  exists b save1 l cs, finds v pat rs re save = Ok (b, save1) /\
+    iterate (S (N.to_nat (re - rs))) v pat (matches rs re) save = Ok l /\
+    run_sound v pat rs re l cs /\ (b = true <-> length cs = 1%nat) /\
+    (exists ok1 st1, nth_error l 0 = Some (ok1, st1, save1)) /\ length save1 = length save /\
+    forall c, nth_error cs 0 = Some c ->
+      (exists w s_in, (forall s, view_exec v pat c s = Ok (true, writes w s)) /\ length s_in = length save /\
+                      save1 = writes w s_in) /\
+      forall fill fresh, view_exec v pat c (repeat fill (length save)) = Ok (true, fresh) ->
+                         captures_ok fill save1 fresh = true.
+Proof. exact ScannerIterProofs.finds_one_report. Qed.
+Print Assumptions C10_finds_one_report.
+
+Example C10_round2_nonvacuous :
+  let v := wit_view true 1536 [{| s_va := 4096; s_vs := 256; s_prd := 1024; s_srd := 256 |};
+                               {| s_va := 8192; s_vs := 256; s_prd := 1280; s_srd := 256 |}] in
+  reads_no_saves wit_pat /\ sections_not_sorted v = false /\
+  must_report v (window wit_pat) 0 12288 4112 = true /\ must_report v (window wit_pat) 0 12288 8208 = true /\
+  view_exec v wit_pat 4112 [] = Ok (true, []) /\ view_exec v wit_pat 8208 [7; 7] = Ok (true, [8208; 7]) /\
+  finds v wit_pat 0 8192 [0] = Ok (true, [4112]) /\ finds v wit_pat 0 12288 [0] = Ok (false, [4112]).
+Proof. exact ScannerIterProofs.iter_nonvacuous. Qed.
+
+(* Detection power, mutant M4 of the self-test (scanner.rs:563 with VirtualSize replaced by SizeOfRawData in the overlap
+   test; [next_m4] is Matches::next with that test).  It IS a different function - witness: a section with
+   VirtualSize < SizeOfRawData and a range starting at VA + VirtualSize, where the mutant reports a stored, unmapped
+   position that the code does not - but the position is a match that must_report does not oblige, and the mutant
+   satisfies the per-call soundness and completeness statements word for word.  So it can only ever show up as a
+   disagreement with the model (it does, on the boundary stream of the generator), never as an oracle failure. *)
+Theorem C10_M4_differs :
+  next m4_view wit_pat (matches 4128 8192) [0] = Ok (false, {| m_start := 4128; m_end := 8192; m_hits := 0 |}, [0]) /\
+  next_m4 m4_view wit_pat (matches 4128 8192) [0] = Ok (true, {| m_start := 4161; m_end := 8192; m_hits := 1 |}, [4160]) /\
+  view_exec m4_view wit_pat 4160 [0] = Ok (true, [4160]) /\
+  must_report m4_view (window wit_pat) 4128 8192 4160 = false.
+Proof. exact ScannerOverlapProofs.m4_differs. Qed.
+Print Assumptions C10_M4_differs.
+Theorem C10_M4_total_sound : forall v pat, ViewsProofs.view_ok v -> v_len v < W32 ->
+  forall st save, m_end st < W32 -> m_hits st <= m_start st ->
+  exists ok st' save', next_m4 v pat st save = Ok (ok, st', save') /\
+    m_end st' = m_end st /\ m_hits st' <= m_start st' /\ m_start st <= m_start st' /\
+    m_start st' <= N.max (m_start st) (m_end st) /\
+    (ok = true -> exists c s_in, m_start st <= c /\ c < m_end st /\ c < m_start st' /\
+                                 view_exec v pat c s_in = Ok (true, save')).
+Proof. exact ScannerOverlapProofs.next_m4_total_sound. Qed.
+Print Assumptions C10_M4_total_sound.
+Theorem C10_M4_complete_file : forall v pat, ViewsProofs.view_ok v -> v_len v < W32 -> v_file v = true ->
+  (forall i, v_get v i < 256) -> bytes_ok (setup pat) ->
+  sorted_by_va (v_secs v) = true -> sections_sane (v_secs v) = true ->
+  forall st save, m_end st < W32 -> m_hits st <= m_start st ->
+  exists ok st' save', next_m4 v pat st save = Ok (ok, st', save') /\
+    if ok then exists c s_in, m_start st <= c /\ c < m_start st' /\ view_exec v pat c s_in = Ok (true, save') /\
+        forall p, m_start st <= p -> p < m_start st' -> p <> c -> obl v pat (m_end st) (v_secs v) p -> ~ Eall (view_exec v pat) p
+    else forall p, m_start st <= p -> obl v pat (m_end st) (v_secs v) p -> ~ Eall (view_exec v pat) p.
+Proof. exact ScannerOverlapProofs.next_m4_complete_file. Qed.
+Print Assumptions C10_M4_complete_file.
+
+(* No statement of C10 is open. *)
